@@ -5,7 +5,7 @@ use proptest::prelude::*;
 
 pub struct C11;
 
-const NAMES: [&str; 14] = ["a", "a.key", "a.val", "A", "m1", "m10", "b", "a.htx", "a b", "日本", "a..x", "-", "m1.key.val", "a.key.htx"];
+const NAMES: [&str; 16] = ["a", "a.key", "a.val", "A", "m1", "m10", "b", "a.htx", "a b", "日本", "a..x", "-", "m1.key.val", "a.key.htx", "ma", "x"];
 
 /// many maps of one key type in one directory (tables of open maps, file descriptors, ...)
 fn many_maps_strategy(tier: Tier, _index: u64) -> BoxedStrategy<History> {
@@ -184,7 +184,7 @@ impl Prop for C11 {
         "C11"
     }
     fn rule(&self) -> String {
-        "2-5 maps of mixed key types in one directory, names drawn from a pool with traps (a, a.key, a.val, a.htx, A, m1, m10, b, 'a b', non-ASCII, a..x, -, m1.key.val, a.key.htx); seeded random interleaved histories in which ~25% of the calls switch the current map / handle, clone a handle, drop one, re-acquire the map through the db object or through a clone of the db object (db_map_X(name), and db_map_X_with_params(name, other parameters) on the open map, whose parameters are ignored); small batches incl. put_from_iter fed by a live traversal of the same map through another handle; about 40% of the maps are opened late (at their first use, through the most recently cloned database handle, re-acquired later through the original one); every call goes through the currently selected handle and is compared with the model of that map (so an update through one handle must be seen through all others); around every update all other maps are flushed and the bytes of their three files must be unchanged; db-level sync and clean reopen (with child-process verification of all maps) are part of the alphabet. Non-trivial: >= 3 maps, >= 2 key types and a switch between >= 2 live handles of one map; distinct by case digest."
+        "2-5 maps of mixed key types in one directory, names drawn from a pool with traps (a, a.key, a.val, a.htx, A, m1, m10, b, 'a b', non-ASCII, a..x, -, m1.key.val, a.key.htx, ma, x: names that are suffixes of other names); seeded random interleaved histories in which ~25% of the calls switch the current map / handle, clone a handle, drop one, re-acquire the map through the db object or through a clone of the db object (db_map_X(name), and db_map_X_with_params(name, other parameters) on the open map, whose parameters are ignored); small batches incl. put_from_iter fed by a live traversal of the same map through another handle; about 40% of the maps are opened late (at their first use, through the most recently cloned database handle, re-acquired later through the original one); every call goes through the currently selected handle and is compared with the model of that map (so an update through one handle must be seen through all others); around every update all other maps are flushed and the bytes of their three files must be unchanged; db-level sync and clean reopen (with child-process verification of all maps) are part of the alphabet. Non-trivial: >= 3 maps, >= 2 key types and a switch between >= 2 live handles of one map; distinct by case digest."
             .to_string()
     }
     fn n_cases(&self, tier: Tier) -> u64 {
